@@ -45,13 +45,13 @@ type Result struct {
 
 // Run collects everything one TestVf_Cnn function observes.
 type Run struct {
-	mu       sync.Mutex
-	res      Result
-	distinct map[string]struct{}
-	journal  *os.File
-	start    time.Time
-	Replay   string // path of a replay file, "" when not replaying
-	out      string
+	mu        sync.Mutex
+	res       Result
+	distinct  map[string]struct{}
+	journal   *os.File
+	start     time.Time
+	Replay    string // path of a replay file, "" when not replaying
+	out       string
 	maxPerKey int
 }
 
